@@ -150,7 +150,7 @@ Print Assumptions c07_rules_validator_decides.
 
 (* ... and so does the per-entry validator (every recorded entry exists with the
    recorded kind, mode, owner and content) *)
-Theorem c07_entry_validator_decides : forall pre tree fm d,
-  check_entry pre tree fm d = [] <-> EntryTrue tree d.
+Theorem c07_entry_validator_decides : forall b pre tree fm d,
+  check_entry b pre tree fm d = [] <-> EntryTrue tree d.
 Proof. exact entry_validator_decides. Qed.
 Print Assumptions c07_entry_validator_decides.
